@@ -10,6 +10,9 @@ KINDS = {
  "r5": """  (1) OPTION / CONFIGURATION: the change shows only under a non-default option, mode or configuration value that the property's quantifier covers (the default path stays byte-for-byte the same).
   (2) ONE TYPE AMONG SEVERAL: several types / variants / functions implement the behaviour the property talks about; break exactly one of the less prominent ones (a sibling type, the quality-carrying variant, one of several generated variants, one encoding), in the method of that type and not in shared code.
   (3) STATE AFTER AN EARLY RETURN OR A REJECTED OPERATION: an operation that returns early (empty input, error, rejected argument, already-done) leaves state behind - a buffer not reset, a counter not restored, a flag not cleared, a lock/slot not released - so that a LATER, perfectly ordinary operation on the same object (or on another object that shares something with it) violates the property.  If the property has no error path, use the early return for an empty / zero-length / already-complete input.""",
+ "r7": """  (1) EDGE OF THE VALUE DOMAIN: wrong only for an extreme or degenerate value the quantifier covers - the largest / smallest representable number, zero length, an empty collection, all elements equal, duplicates, an all-gap or all-invalid input, the last valid code of a table - and right for every ordinary value.  (Not a size threshold: a value.)
+  (2) TWO FEATURES THAT MEET: two options, modes or operations each of which works alone and which are wrong only in combination (this flag AND that mode; this operation directly after that one on the same object; both ends at once) - the change sits where the two code paths meet.
+  (3) LIFETIME: something lives too long or not long enough - a result that aliases an internal buffer which a LATER call reuses, a goroutine / file / channel left behind on a rare path, a resource released while a result still refers to it, state of a finished (closed, cleaned-up, drained) object that a following legal call trips over.""",
  "r6": """  (1) THRESHOLD / SIZE CLASS: introduce a fast path, a chunked loop, a buffer size or a small-size special case so that the behaviour is wrong only when some size (length, count, number of rows, number of chunks, value magnitude) is exactly at, or one beyond, a constant you introduce or one that is already in the code - and right for every smaller size.  Pick a constant that small inputs do not reach at once (but below a few thousand).
   (2) TWO COOPERATING SITES: two edits in different functions (or files), each of which looks fine alone and neither of which breaks the property alone; only together - a producer that changes a representation / invariant slightly and a consumer that was not updated, or two call sites that now disagree about who resets / owns / closes something.
   (3) ORDER OF STEPS: reorder two steps inside one operation (publish before initialise, advance before reserve, release before the last use, acknowledge before the work is complete, check after the act) so that the result is wrong only for a particular sequence of calls, a particular interleaving of goroutines, or a failure that arrives between the two steps.""",
